@@ -55,6 +55,21 @@ let () =
         dead := false;
         Printf.printf "case %s %s\n" id (show_state !st); flush stdout
     | ["end"] -> print_string "end\n"; flush stdout
+    | ["RF2"; da; db] when not !dead ->
+        (* both buffers read their own descriptor (the implementation does it concurrently on two threads): the model is
+           the product -- first buffer, then (swap) the second, independently *)
+        let sw (s: state) : state = (snd s, fst s) in
+        (match step_c !st (ReadFd (KData (bytes_of_spec da))) with
+         | Ok (st1, ORead r1) ->
+             (match step_c (sw st1) (ReadFd (KData (bytes_of_spec db))) with
+              | Ok (st2, ORead r2) ->
+                  st := sw st2;
+                  let c2 = readable (snd !st) in
+                  Printf.printf "ok rd2:%s:%s:%d:%s %s\n" (string_of_z r1.rf_n) (string_of_z r2.rf_n)
+                    (int_of_nat (readableBytes (snd !st))) (fnv_of_bytes c2) (show_state !st)
+              | _ -> dead := true; print_string "FAULT\n")
+         | _ -> dead := true; print_string "FAULT\n");
+        flush stdout
     | w ->
         if !dead then print_string "skipped\n" else
         (let cap = int_of_nat (readFd_capacity (fst !st)) in
